@@ -18,6 +18,10 @@ func Alias(g *G, n int) []Program {
 		inst := "i" + itoa(int64(i))
 		op := g.PickS("Add", "Sub", "Mul", "Quo", "FMA", "Set", "Neg", "Abs", "Sqrt", "SetMantExp", "MantExp", "Copy")
 		xd, yd, ud := g.Digits(g.Len()), g.Digits(g.Len()), g.Digits(g.Len())
+		if i%40 == 7 && (op == "Quo" || op == "Mul") {
+			// long operands: recursive division / Karatsuba with a reused (dirty) receiver buffer
+			xd, yd = g.Digits(2600+g.R.Intn(600)), g.Digits(1950+g.R.Intn(300))
+		}
 		xe := g.Exp()
 		if xe > 100000 || xe < -100000 {
 			xe = int64(g.R.Intn(100))
@@ -69,7 +73,7 @@ func Alias(g *G, n int) []Program {
 			case 0:
 				g.Emit(M{"op": "New", "z": z})
 			case 1: // previously a much longer value: capacity and stale words exist; SetPrec below leaves a stale accuracy
-				g.Load(z, g.Bool(), g.Digits(400+g.R.Intn(400)), g.Exp(), 0, g.Mode())
+				g.Load(z, g.Bool(), g.Digits(400+g.R.Intn(400)+len(xd)), g.Exp(), 0, g.Mode())
 			default: // previously special: no buffer, stale sign
 				g.Emit(M{"op": "New", "z": z})
 				g.Emit(M{"op": "SetInf", "z": z, "neg": true})
